@@ -229,21 +229,22 @@ type Scenario struct {
 	AlwaysPreco          bool              // write the monthly precipitation-correction table even if the correction is off (a batch line may switch it on)
 	PrecoFactors         [12]float64
 	// WeatherFault (C04): the weather input does not cover the whole simulation ("", ends_early, gap, missing_year, starts_late)
-	WeatherFault string
-	FaultFrom    Date // first day without a record
-	FaultTo      Date // last day without a record
-	OutInterval  int
-	ResultFormat int // 0 hermes fixed width, 1 csv
-	ResultExt    string
-	MgmtEvents   int
-	AutoSow      bool
-	AutoFert     bool
-	AutoIrr      bool
-	AutoHarvest  bool
-	Automan      []string // lines of automan.txt (without header)
-	AutoRows     map[string]*AutoRow
-	CropParamYml bool
-	VirtualDate  string
+	WeatherFault  string
+	FaultFrom     Date // first day without a record
+	FaultTo       Date // last day without a record
+	OutInterval   int
+	ResultFormat  int // 0 hermes fixed width, 1 csv
+	ResultExt     string
+	MgmtEvents    int
+	AutoSow       bool
+	AutoFert      bool
+	AutoIrr       bool
+	AutoHarvest   bool
+	TillCollision bool     `json:",omitempty"` // rewritten around the observed harvest: postponed tillage meets the next one
+	Automan       []string // lines of automan.txt (without header)
+	AutoRows      map[string]*AutoRow
+	CropParamYml  bool
+	VirtualDate   string
 
 	Tightened  bool // C16: rewritten around the observed first harvest (see c16Scenario)
 	DailyCols  []OutCol
@@ -599,8 +600,22 @@ func genWithProfile(prop string, seed uint64, idx int, r *Rng, p Profile) *Scena
 		sc.GRLO = sc.GRHI
 	}
 	sc.GWPhase = pickI(r, []int{80, 80, 0, 30, 180, 270})
+	// 2.5 %: the groundwater table at the soil surface (level exactly 0 dm: soil file 00, polygon file 00 / 00..04, a series
+	// that starts from / returns to 0): the whole profile lies below the table
+	rz := NewRng(mix(mix(seed, uint64(idx)), 808))
+	gwZero := rz.Bool(0.025)
+	if gwZero {
+		sc.Soil.GW, sc.GRHI, sc.GRLO = 0, 0, pickI(rz, []int{0, 0, 1, 4})
+	}
 	if sc.GWMode == 2 {
 		genGWSeries(sc, r)
+		if gwZero {
+			for i := range sc.GWSeries {
+				if i%2 == 0 || rz.Bool(0.3) {
+					sc.GWSeries[i].Level = 0
+				}
+			}
+		}
 	}
 
 	// ---------------- config ----------------
